@@ -22,7 +22,7 @@ For EACH property, produce ONE change to the LIBRARY code (non-test .go files) t
   (a) the library still compiles, `go vet` is quiet, and the existing test suite still passes (apart from the network tests above);
   (b) the property, as stated, is now violated for at least one concrete input / schedule / fault sequence;
   (c) the change is small (typically 1–15 lines) and not silly: no deleting whole features, no `if name == "evil"` special cases, no renaming of exported API;
-  (d) it is DIFFERENT in mechanism and location from the changes already tried for that property (listed below; this is round {rnd}, {int(num)-1} changes per property have been tried); prefer places in the code that the property text mentions less prominently but that the property still depends on (helper functions, error paths, option handling, boundary conditions, rarely used configuration, interaction of two features).
+  (d) it is DIFFERENT in mechanism and location from the changes already tried for that property (listed below; this is round {rnd}, {int(num)-1} changes per property have been tried); it needs something SPECIFIC to manifest — a particular interleaving, a crash or fault at a particular point, a multi-step sequence of operations, an unusual input, or two cooperating edits at different sites that each look fine alone — not something ordinary use would expose at once; prefer places in the code that the property text mentions less prominently but that the property still depends on (helper functions, error paths, option handling, boundary conditions, rarely used configuration, interaction of two features).
 For the change (use number {num}): write a small demonstration test file zz_demo_<ID>_{num}_test.go (package certmagic, in the repository root or the package concerned) that PASSES on the pristine worktree and FAILS with your change applied — it must exercise real library code and show the property being violated (not merely detect the textual change). Verify both directions yourself. Then save into /tmp/mut/out/<ID>-{num}/ : patch.diff (`git diff` of library files only, applicable with `git apply` to a pristine checkout), the demonstration test file, and meta.json with keys: property, title (one sentence), what_it_breaks (a paragraph: the failing input/schedule and why the property is violated), files, demo_test (the -run regex), suite_passes (true). Finally reset the worktree (`git checkout -- . && git clean -fdq`). Do not remove the worktrees.
 IMPORTANT: the worktrees share one git repository — never use `git stash`, `git commit` or `git checkout <branch>`; to reset a worktree use only `git checkout -- . && git clean -fdq` inside it.
 
@@ -33,6 +33,8 @@ IMPORTANT: the worktrees share one git repository — never use `git stash`, `gi
     s += f"Reply at the end with one line per change: <ID>-{num}: title, and whether all verifications succeeded."
     open(f'/tmp/mut/prompt{rnd}_{tag}.txt', 'w').write(s)
 ids = sorted(props)
-for k, tag in enumerate('abcd'):
-    prompt(ids[k*5:(k+1)*5], tag)
-print("prompts in /tmp/mut/prompt%s_[a-d].txt" % rnd)
+per = int(os.environ.get('MUT_GROUP', '5'))
+tags = 'abcdefghijklmnopqrst'
+for k in range((len(ids) + per - 1) // per):
+    prompt(ids[k*per:(k+1)*per], tags[k])
+print("prompts in /tmp/mut/prompt%s_[a-%s].txt" % (rnd, tags[(len(ids) + per - 1) // per - 1]))
